@@ -49,11 +49,11 @@ import re
 import core
 
 LEVEL = "proof"
-EXTRA_TARGETS = ["model/FmtSpecTie.vo", "model/FmtEnvTie.vo", "model/FmtDenTie.vo"]
+EXTRA_TARGETS = ["model/FmtSpecTie.vo", "model/FmtEnvTie.vo", "model/FmtDenTie.vo", "model/FmtDenPixTie.vo"]
 STYLES = ["block", "kitty", "iterm2"]
 COQ_STYLE = {"block": "Block", "kitty": "Kitty", "iterm2": "ITerm2"}
 HEADER = ("From Coq Require Import List NArith ZArith.\nImport ListNotations.\n"
-          "From TI Require Import lib.Re model.FmtSpec model.FmtSpecTie model.FmtEnv model.FmtEnvTie model.FmtDen model.FmtDenTie.\n"
+          "From TI Require Import lib.Re model.FmtSpec model.FmtSpecTie model.FmtEnv model.FmtEnvTie model.FmtDen model.FmtDenTie model.FmtDenPix model.FmtDenPixTie.\n"
           "Open Scope nat_scope.\n")
 TERMS = [[80, 30], [100, 50], [12, 5], [3, 3]]
 
@@ -664,11 +664,36 @@ def hex6(rgb):
     return "%02x%02x%02x" % tuple(rgb)
 
 
+# thresholds whose product with 255 has a fractional part below / at / above one half
+THR_EXACT = ["5", "9", "999", "325043", "1", "3", "7", "2", "4", "75", "999999", "0039", "1568", "15"]
+
+
+def thr8_exact(ds):
+    """round-half-even of 0.ds * 255 in exact arithmetic (mirrors FmtDenPix.thr8)."""
+    from fractions import Fraction
+    x = Fraction(int(ds or "0"), 10 ** len(ds)) * 255
+    q, r = divmod(x.numerator, x.denominator)
+    if 2 * r < x.denominator:
+        return q
+    if 2 * r > x.denominator:
+        return q + 1
+    return q if q % 2 == 0 else q + 1
+
+
+def thr_safe(ds):
+    """The double product float('.ds') * 255 rounds like the exact one (it could differ only if
+    the exact product were within ~1e-13 of k + 1/2 without being it; at most 12 digits keep every
+    non-tie at least 5e-13 away) — checked, not assumed: Python's own round() must agree."""
+    return 0 < len(ds) <= 12 and round(float("." + ds) * 255) == thr8_exact(ds)
+
+
 def alpha_tails(rng, bg):
     """(tail, [tails the documentation makes equivalent on a terminal with background bg])"""
     eff = hex6(bg) if bg is not None else "000000"
     rnd = "".join(rng.choice("0123456789abcdefABCDEF") for _ in range(6))
     thr = rng.choice(["5", "25", "0", "999", "1", "75", str(rng.randrange(0, 1000))])
+    if not thr_safe(thr):
+        thr = "25"
     return [
         ("##", ["#" + eff, "#" + eff.upper()]),
         ("#" + eff, ["##"]),
@@ -707,6 +732,27 @@ def den_alpha_jobs(ctx):
                     head, stl = rng.choice(heads), rng.choice(stails[st])
                     jobs.append({"kind": "alpha", "style": st, "bg": bg, "w": w, "pixels": px,
                                  "spec": head + tail + stl, "eqs": [head + t + stl for t in eq_tails]})
+    # the exact 8-bit threshold (block text): alpha levels around floor / ceiling of threshold * 255
+    thrs = [t for t in THR_EXACT if thr_safe(t)]
+    extra = 3 if ctx.quick else 120
+    for _ in range(extra):
+        t = "".join(rng.choice("0123456789") for _ in range(rng.choice([1, 2, 3, 6])))
+        k = rng.randrange(1, 255)
+        t2 = rng.choice([t, "%06d" % ((2 * k + 1) * 1000000 // 510 + rng.choice([0, 1]))])   # just below / above k + 1/2
+        if thr_safe(t2):
+            thrs.append(t2)
+    for t in thrs:
+        fl = int(t) * 255 // 10 ** len(t)
+        levels = [a for a in (fl - 1, fl, fl + 1, fl + 2) if 0 <= a <= 255]
+        px = [[rng.choice([255, 200, rng.randrange(256)]), rng.choice([0, 100, rng.randrange(256)]),
+               rng.choice([0, 50, rng.randrange(256)]), a] for a in levels]
+        while len(px) < 4:
+            px.append(list(px[-1]))
+        rng.shuffle(px)
+        bg = rng.choice([None, None, [rng.randrange(256) for _ in range(3)]])
+        head = rng.choice(heads)
+        jobs.append({"kind": "alpha", "style": "block", "bg": bg, "w": 2, "pixels": px,
+                     "spec": head + "#." + t, "eqs": [head + "#." + t + "0"], "exact": True})
     return jobs
 
 
@@ -735,7 +781,7 @@ def check_alpha(jobs, tag="c19da"):
             errors.append(f"denotation driver: {j['style']} {j['spec']!r}: {(r.get('error') or r.get('err'))[-800:]}")
             r.setdefault("k", 9)
     terms = [acase_term(j, r) for j, r in zip(jobs, res)]
-    bad, errs = core.coq_shards(tag, HEADER, terms, "acase", "abad cases", shard=120)
+    bad, errs = core.coq_shards(tag, HEADER, terms, "acase", "xbad cases", shard=120)
     codes = [0] * len(jobs)
     for i, c in bad:
         codes[i] = c
@@ -753,9 +799,18 @@ def alpha_failure(job, r, code):
                  f"{describe_bg(job['bg'])}, image {job['w']} pixels wide with pixels (r,g,b,a) {job['pixels']}: the text "
                  f"displays {r.get('px')} (null = terminal background shows); same output as the documented-equivalent "
                  f"specifiers {job['eqs']}: {r.get('same')} — contradicts the documented transparency treatment "
-                 f"('#' bgcolor = the terminal's default background colour, or black if undetermined; check code {code})"),
+                 f"('#' bgcolor = the terminal's default background colour, or black if undetermined; a threshold t: "
+                 f"pixels of alpha level a are opaque iff a >= the nearest integer to 255 t, e.g. "
+                 f"{thr_note(job['spec'])}; check code {code})"),
         "replay": {"kind": "den-alpha", "job": job, "observed": r, "code": code},
     }
+
+
+def thr_note(spec):
+    m = re.search(r"#\.(\d+)", spec)
+    if not m:
+        return "default threshold 40/255"
+    return f"'.{m.group(1)}' * 255 = {int(m.group(1)) * 255 / 10 ** len(m.group(1)):.6g} -> level {thr8_exact(m.group(1))}"
 
 
 def shrink_alpha(job):
@@ -767,7 +822,9 @@ def shrink_alpha(job):
     if errs:
         return None
     hits = [(j, r, c) for j, r, c in zip(cands, res, codes) if 2 <= c < 4]
-    hits.sort(key=lambda x: abs(x[0]["pixels"][0][3] - 128))
+    m = re.search(r"#\.(\d+)", job["spec"])
+    centre = thr8_exact(m.group(1)) if m else 128
+    hits.sort(key=lambda x: abs(x[0]["pixels"][0][3] - centre))
     return hits[0] if hits else None
 
 
@@ -874,18 +931,129 @@ def frames_failure(job, route, pos, o, code):
     }
 
 
+GFX_CORPUS = [
+    # style, src, mode, size, width, set_method, rff, spec
+    ("iterm2", "file", "RGBA", [4, 4], 4, "whole", None, "1.1#00ff00"),
+    ("iterm2", "file", "RGBA", [4, 4], 4, None, None, "1.1##+W"),
+    ("iterm2", "file", "LA", [4, 4], 4, None, True, "<9.^4#123456+W"),
+    ("iterm2", "file", "RGBA", [4, 4], 4, None, None, "1.1+W"),
+    ("iterm2", "file", "RGBA", [4, 4], 4, None, None, "1.1#.5+W"),
+    ("iterm2", "file", "RGBA", [4, 4], 4, None, None, "1.1#+W"),
+    ("iterm2", "file", "RGB", [4, 4], 4, None, None, "1.1#00ff00+W"),
+    ("iterm2", "file", "P", [4, 4], 4, None, None, "1.1+W"),
+    ("iterm2", "file", "P", [4, 4], 4, None, None, "1.1##+W"),
+    ("iterm2", "file", "RGBA", [60, 60], 2, None, None, "1.1#00ff00+W"),
+    ("iterm2", "file", "RGBA", [4, 4], 4, None, False, "1.1#00ff00+W"),
+    ("iterm2", "file", "RGBA", [4, 4], 4, None, None, "1.1#00ff00+L"),
+    ("iterm2", "pil-file", "RGBA", [4, 4], 4, None, None, "1.1#00ff00+W"),
+    ("iterm2", "pil-file", "LA", [4, 4], 4, "whole", None, "##"),
+    ("iterm2", "pil", "RGBA", [4, 4], 4, None, None, "1.1#00ff00+W"),
+    ("iterm2", "file", "RGBA", [4, 4], 4, "anim", None, "1.1##"),
+    ("iterm2", "file", "RGBA", [4, 4], 4, None, None, "1.1#abcdef+A"),
+    ("iterm2", "file", "L", [4, 4], 4, None, None, "1.1#+W"),
+    ("kitty", "file", "RGBA", [4, 4], 3, None, None, "1.1#00ff00+W"),
+    ("kitty", "file", "LA", [4, 4], 3, None, None, "1.1##+L"),
+    ("kitty", "pil", "P", [4, 4], 3, None, None, "1.1#"),
+    ("kitty", "file", "RGBA", [60, 60], 2, None, None, "1.1"),
+]
+MODE_CLASS = {"opaque": "MOpaque", "alpha": "MAlpha", "pal": "MPal"}
+
+
+def den_gfx_jobs(ctx):
+    rng = ctx.rng
+    rows = list(GFX_CORPUS)
+    for _ in range(14 if ctx.quick else 400):
+        st = rng.choice(["iterm2", "iterm2", "iterm2", "kitty"])
+        src = rng.choice(["file", "file", "file", "pil-file", "pil"])
+        mode = rng.choice(["RGBA", "RGBA", "LA", "P", "RGB", "L"])
+        size = rng.choice([[4, 4], [4, 4], [2, 6], [60, 60], [1, 1], [30, 40]])
+        meths = ["lines", "whole"] + (["anim"] if st == "iterm2" else [])
+        rnd = "".join(rng.choice("0123456789abcdefABCDEF") for _ in range(6))
+        spec = rng.choice(["", "1.1", "<9.^4", ">3"]) + rng.choice(["", "#", "##", "##", "#.5", "#." + str(rng.randrange(1000)),
+                                                                 "#" + rnd, "#" + rnd, "#00ff00"])
+        sp = rng.choice(["", "W", "W", "W", "L", "A" if st == "iterm2" else "W"]) \
+            + rng.choice(["", "", "m1", "z3" if st == "kitty" else ""]) + rng.choice(["", "c0", "c9"])
+        if st == "kitty" and "z" in sp and "m" in sp:
+            sp = sp.replace("m1", "")
+        if sp:
+            spec += "+" + sp
+        rows.append((st, src, mode, size, rng.choice([1, 2, 4]), rng.choice([None, None, "whole"] + meths),
+                     rng.choice([None, None, True, False]), spec))
+    jobs = []
+    for st, src, mode, size, width, sm, rff, spec in rows:
+        a = 255 if mode in ("RGB", "L") else rng.choice([0, 0, 64, 90, 128, 128, 200, 255])
+        v = rng.choice([200, 255, 30, rng.randrange(256)])
+        pixel = [v, v, v, a] if mode in ("L", "LA") else [v, rng.choice([100, 0, rng.randrange(256)]), rng.choice([50, 255, rng.randrange(256)]), a]
+        bg = rng.choice([None, [rng.randrange(256) for _ in range(3)]])
+        jobs.append({"kind": "gfx", "style": st, "bg": bg, "src": src, "mode": mode, "pixel": pixel, "size": size,
+                     "width": width, "set_method": sm, "rff": rff, "spec": spec})
+    return jobs
+
+
+def tcase_term(job, r):
+    f = r["facts"]
+    src = ("{| g_mode := %s; g_animated := %s; g_readable := %s; g_fits := %s; g_rff := %s |}" % (
+        (MODE_CLASS[f["modeclass"]],) + tuple(COQ_BOOL[int(bool(f[k]))] for k in ("animated", "readable", "fits", "rff"))))
+    sp = "{| p_r := %d; p_g := %d; p_b := %d; p_a := %d |}" % tuple(f["srcpx"])
+    pairs = ["(%s, (%d, %d, %d, %d)%%Z)" % ((sp,) + tuple(t)) for t in r.get("tpx", [])]
+    px = "[" + "; ".join(pairs) + "]" if pairs else "(@nil (px * tpx))"
+    bg = "None" if job["bg"] is None else "(Some %d%%Z)" % int(hex6(job["bg"]), 16)
+    return ("{| t_sty := %s; t_spec := %s; t_bg := %s; t_cur := %d; t_src := %s; t_kind := %d; t_px := %s; t_verb := %s |}" % (
+        COQ_STYLE[job["style"]], nlist([ord(c) for c in job["spec"]]), bg, f["method"], src, r["k"], px, core.z(r.get("verb", -1))))
+
+
+def check_gfx(jobs, tag="c19dg"):
+    if not jobs:
+        return [], [], []
+    res = core.run_impl_parallel("impl_c19den.py", jobs, chunk=max(1, (len(jobs) + core.NCPU - 1) // core.NCPU))
+    errors, terms, keep = [], [], []
+    for j, r in zip(jobs, res):
+        if "error" in r:
+            errors.append(f"denotation driver (gfx): {j}: {r['error'][-800:]}")
+            continue
+        keep.append((j, r))
+        terms.append(tcase_term(j, r))
+    bad, errs = core.coq_shards(tag, HEADER, terms, "tcase", "tbad cases", shard=200)
+    codes = [0] * len(keep)
+    for i, c in bad:
+        codes[i] = c
+    return keep, codes, errors + errs
+
+
+def gfx_failure(job, r, code):
+    f = r["facts"]
+    return {
+        "signature": core.sig({"den": "gfx", "style": job["style"], "spec": job["spec"], "src": job["src"], "mode": job["mode"],
+                               "rff": f["rff"], "fits": f["fits"]}),
+        "what": (f"format({COQ_STYLE[job['style']]}Image, {job['spec']!r}) on a still {job['mode']} PNG ({job['src']}, "
+                 f"{job['size'][0]}x{job['size'][1]} pixels all {f['srcpx']} as RGBA, width={job['width']}, "
+                 f"set_render_method={job['set_method']}, read_from_file={f['rff']}"
+                 f"{' (library default)' if job['rff'] is None else ''}, original fits the render size: {f['fits']}) on a terminal "
+                 f"whose background colour is {describe_bg(job['bg'])}: outcome {r['k']}, the transmitted picture(s) hold the "
+                 f"pixels (r,g,b,a) {r.get('tpx')}, payload is the source file verbatim: {r.get('verb')} {r.get('exc', '')} — "
+                 f"contradicts the documented transparency treatment for graphics-based styles (bgcolor: every pixel opaque, "
+                 f"blended over the colour; '#': alpha ignored; threshold / default: alpha as-is; check code {code})"),
+        "replay": {"kind": "den-gfx", "job": job, "observed": r, "code": code},
+    }
+
+
 def den_jobs(ctx):
     """The cases of part 5 (all randomness is drawn here, in the main thread)."""
     rp = ctx.replay["replay"] if ctx.replay else None
+    if rp and rp.get("kind") == "den-gfx":
+        return [], [], [rp["job"]]
+    if not rp:
+        a, f = den_alpha_jobs(ctx), den_frame_jobs(ctx)
+        return a, f, den_gfx_jobs(ctx)
     ajobs = [rp["job"]] if rp and rp.get("kind") == "den-alpha" else ([] if rp else den_alpha_jobs(ctx))
     fjobs = [rp["job"]] if rp and rp.get("kind") == "den-frames" else ([] if rp else den_frame_jobs(ctx))
-    return ajobs, fjobs
+    return ajobs, fjobs, []
 
 
 def den_part(ctx, out, jobs=None):
     """Part 5.  Returns the set of distinct cases judged."""
     rp = ctx.replay["replay"] if ctx.replay else None
-    ajobs, fjobs = jobs if jobs is not None else den_jobs(ctx)
+    ajobs, fjobs, gjobs = jobs if jobs is not None else den_jobs(ctx)
     distinct = set()
     # (a) transparency
     res, codes, errs = check_alpha(ajobs)
@@ -950,6 +1118,38 @@ def den_part(ctx, out, jobs=None):
         seen.add(k)
         out["failures"].append(frames_failure(j, route, pos, o, c))
     out["extra"]["denotation_failing_cases_seen"] = len(failing)
+    # (c) the picture a graphics-based style transmits
+    keep, codes, errs = check_gfx(gjobs)
+    out["errors"] += errs
+    out["evaluations"] += len(keep)
+    hist = {}
+    failing = []
+    for (j, r), c in zip(keep, codes):
+        f = r["facts"]
+        t = ('bgcolor' if re.search('#(#|[0-9a-fA-F]{6})', j['spec']) else 'threshold' if '#.' in j['spec']
+             else 'disabled' if '#' in j['spec'] else 'default')
+        key = (f"{j['style']} {j['src']} {j['mode']}, read_from_file {'on' if f['rff'] else 'off'}, method "
+               f"{ {1: 'L', 2: 'W', 3: 'A'}.get(f['method']) if '+' not in j['spec'] else 'by spec'}, "
+               f"{'fits' if f['fits'] else 'down-scaled'}, {t}, sent verbatim: {r.get('verb')}")
+        hist[key] = hist.get(key, 0) + 1
+        distinct.add(("g", json.dumps(j, sort_keys=True)))
+        if c >= 4:
+            out["errors"].append(f"ill-formed transmitted-picture case (code {c}): {j} {r}")
+        elif c >= 2:
+            failing.append((j, r, c))
+        elif c == 1:
+            out["mismatches"].append({"what": "transmitted pixels differ from the implementation model only",
+                                      "job": j, "observed": r})
+    out["histogram"]["denotation_transmitted_picture_cases"] = hist
+    failing.sort(key=lambda x: (len(x[0]["spec"]), x[0]["size"][0] * x[0]["size"][1], x[0]["src"] != "file", x[0]["set_method"] is not None))
+    seen = set()
+    for j, r, c in failing:
+        k = (j["style"], j["spec"])
+        if k in seen or len(seen) >= 2:
+            continue
+        seen.add(k)
+        out["failures"].append(gfx_failure(j, r, c))
+    out["extra"]["denotation_transmitted_failing_cases_seen"] = len(failing)
     return distinct
 
 
